@@ -15,12 +15,17 @@ consumes the group it is given (the group parameter is what is iterated / handed
 no handler swallows a write error (every `?`/try_for_each result reaches the return). (3) exporter
 task: the entries come from db.entries::<T>(prefix, Forward) of the same T, are chunked by the
 configured group size and each chunk is given to writer.write; the chain height/latest block written
-by finalize() comes from the on-chain latest block and its header merkle root. (4) JSON encoding:
+by finalize() comes from the on-chain latest block and its header merkle root; LastBlockConfig::from_header
+fills every field from the header's own accessor (height, DA height, consensus-parameters version, state
+transition bytecode version) and the blocks root from its parameter, with no two fields sharing a source.
+(4) JSON encoding:
 for every named table the writer side (impl AddTable<T> for StateConfigBuilder) stores the entries and
 the reader side (impl AsTable<T> for StateConfig) produces entries from the config (sibling impl lists
 agree); the parquet path is generic in T.
 """
-NOT_DECIDED = """Value equality after import (codec round trips), group-size arithmetic, parquet encoder."""
+NOT_DECIDED = """Value equality after import (codec round trips), group-size arithmetic, and the parquet encoder/decoder and
+the parquet arm of the group reader (feature `parquet` is enabled only by the node binary, not by the analysed library
+configurations; what goes wrong there is positional arithmetic, e.g. seed C39-4's off-by-one `nth`)."""
 
 G = "fuel_core::service::genesis"
 REQUIRED = ["Coins", "Messages", "BlobData", "ContractsRawCode", "ContractsLatestUtxo", "ContractsState", "ContractsAssets",
@@ -172,3 +177,25 @@ def check(ctx):
                             for bb, j, s in x.stmts()) for x in rb.bodies)
             ctx.add(f"4.json-reader-yields-{t}", "JSONLOSS", reads, f"the JSON reader (AsTable<{t}>::as_table) produces the entries from the config" +
                     ("" if reads else f": it always returns an empty table"), sites=[f"{rb.root.file}:{rb.root.line}"], site_key="r:" + t)
+
+    # -- 3b. the chain tip recorded in the snapshot is the exported header's own ----------
+    with ctx.clause("3.last-block-fields"):
+        LB = "fuel_core_chain_config::config::state::LastBlockConfig"
+        BH = "fuel_core_types::blockchain::header::BlockHeader"
+        hb = F.unit(f"{LB}::from_header").root
+        ag = [s for bb, j, s in hb.stmts() if bb in hb.live and s["k"] == "assign" and s["rv"]["k"] == "agg" and s["rv"].get("adt") == LB]
+        ctx.expect_sites("3.last-block-built", [str(s.get("line")) for s in ag], exactly=1, what="LastBlockConfig { .. } in LastBlockConfig::from_header")
+        want = {"block_height": f"call:{BH}::height", "da_block_height": f"call:{BH}::da_height",
+                "consensus_parameters_version": f"call:{BH}::consensus_parameters_version",
+                "state_transition_version": f"call:{BH}::state_transition_bytecode_version",
+                "blocks_root": "param:2"}
+        if ag:
+            o3 = Origins(hb, 1)
+            fl = ag[0]["rv"]["fields"]
+            ctx.add("3.last-block-all-fields-known", "FIELDCOV", set(fl) == set(want), f"LastBlockConfig fields {sorted(fl)} each have a stated source", sites=[str(ag[0].get("line"))], site_key="cov")
+            for f, spec in want.items():
+                at = o3.atoms(ag[0]["rv"]["ops"][fl.index(f)]) if f in fl else set()
+                others = [w for g, w in want.items() if g != f]
+                ctx.add(f"3.last-block-{f}", "PROV", atom_match(at, spec) and not any(atom_match(at, w) for w in others),
+                        f"LastBlockConfig.{f} is the exported header's {spec.split('::')[-1]} and no other component (regenesis builds its genesis block and picks its executor version from these)",
+                        sites=[str(ag[0].get("line"))], site_key=f, witness={"atoms": sorted(map(str, at))[:8]})
